@@ -66,6 +66,17 @@ def compare_errors(l_errors, e_errors, depth, inner_keyref=False):
             return [x for x in errs if "not found for Xsd" not in x[1]]
         if depth >= 2 and inner_keyref and rest(l_errors) == rest(e_errors):
             return "errors", "F-C06-f"
+        # F-C06-h: a streamed element that no declaration matches (admitted by a strict wildcard of its
+        # parent) is skipped silently: the 'element not found' error located at it is missing, nothing else
+        missing = list(e_errors)
+        for x in l_errors:
+            if x in missing:
+                missing.remove(x)
+            else:
+                return "errors", None
+        if missing and all(x[0].count("/") == depth + 1 and "' not found" in x[1] and x[1].startswith("element ")
+                           for x in missing):
+            return "errors", "F-C06-h"
         return "errors", None
 
     def above(x):
@@ -158,7 +169,7 @@ def judge(job):
         cmp = compare_errors(le, e_errors, d, inner_keyref=has_inner_keyref(xsds[0]))
         if lv != e_valid:
             out.append((about, tag, f"is_valid={lv}, fully loaded: {e_valid}", None,
-                        cmp[1] if cmp and cmp[1] == "F-C06-f" and lv == (not le) else None))
+                        cmp[1] if cmp and cmp[1] in ("F-C06-f", "F-C06-h") and lv == (not le) else None))
         if cmp:
             out.append((about, tag, f"errors {le} vs fully loaded {e_errors}"[:900], cmp[0], cmp[1]))
     return out, explored
